@@ -28,7 +28,7 @@ BUDGET = {'quick': 900, 'thorough': 7200}
 CHUNK = {'quick': 64, 'thorough': 64}
 MANIFEST = {'engines': ['E1-enum', 'E2-explore'],
             'technique': 'bounded-exhaustive graph enumeration + stateless exploration of all RNG answers of the real A*/BFS vs exact shortest paths'}
-REPR = ['next_state', 'det', 'dict', 'uniform']
+REPR = ['next_state', 'det', 'dict', 'uniform', 'dict_zero']      # dict_zero: the single outcome plus an entry with probability 0
 INF = float('inf')
 
 
@@ -123,7 +123,7 @@ def graph_items(tier):
 
 def items(tier, seed):
     for i, g in enumerate(graph_items(tier)):
-        yield (g, (i + seed) % 4, (i // 4 + seed) % 2)
+        yield (g, (i + seed) % 5, (i // 5 + seed) % 2)
     # priority-queue family: every push order of a 6-entry queue (thorough: + 7 entries), see check_queue_family
     for ci in range(720):
         yield ('queue', 6, ci, 13 if tier == 'quick' else 1, seed % 13)
@@ -227,7 +227,8 @@ def build_problem(n, edges, goals, kind, strlabels):
             def is_absorbing(self, s): return absorbing(s)
         return P(), lab, unlab
     mk = {'det': lambda x: DeterministicDistribution(x), 'dict': lambda x: DictDistribution({x: 1.0}),
-          'uniform': lambda x: UniformDistribution((x,))}[kind]
+          'uniform': lambda x: UniformDistribution((x,)),
+          'dict_zero': lambda x: DictDistribution({x: 1.0, lab((unlab[x] + 1) % n): 0.0} if n > 1 else {x: 1.0})}[kind]
 
     class M(MarkovDecisionProcess):
         discount_rate = 1.0
